@@ -93,6 +93,7 @@ class AutoObl(Obl):
             if ent["val"] is None:
                 rules = {s: "vp_arr_" + s for s in _SLOTS}
                 rules["compare"] = "slice_compare"
+                rules["func"] = "vp_arr_noop_cleanup"
                 rules.update(self.fp_rules)
                 out = []
                 for label, member in _fp_sites(self):
@@ -232,7 +233,7 @@ for (sizes, tier) in (((1, 0, 1), "quick"), ((0, 1, 0, 1), "quick"), ((2, 0, 0, 
 # ------------------------------------------------------------------ a. block.c on builder-produced blocks
 BLOCK_REAL = ["table/block_builder.c", "table/iterator.c", "util/comparator.c", "util/buffer.c", "util/slice.c",
               "util/strutil.c", "util/array.c"]
-BLOCK_KIT = ["vp_nondet.c", "vp_mem.c", "vp_alloc_c07.c"]
+BLOCK_KIT = ["vp_nondet.c", "vp_mem.c", "vp_alloc_c07.c", "vp_arriter.c"]  # vp_arriter only for vp_arr_noop_cleanup
 BLOCK_FUNCS = ["ldb_blockiter_first", "ldb_blockiter_last", "ldb_blockiter_seek", "ldb_blockiter_next",
                "ldb_blockiter_prev", "parse_next_key", "decode_entry", "seek_to_restart_point", "get_restart_point",
                "ldb_block_init", "ldb_blockiter_create", "ldb_blockgen_add", "ldb_blockgen_finish"]
